@@ -190,6 +190,37 @@ pub fn run(ctx: &mut Ctx) {
         emit_roundtrip(ctx, &env, &[v("N"), v("N")], &[IDLValue::Nat(1u8.into())], true);
         emit_roundtrip(ctx, &env, &[v("N")], &[IDLValue::Nat(1u8.into()), IDLValue::Nat(2u8.into())], true);
     }
+    // large type tables: references to table indices around 63/64 and 127/128 (SLEB128 boundaries)
+    {
+        let none = TypeEnv::new();
+        for k in [1usize, 62, 63, 64, 65, 66, 70, 126, 127, 128, 129, 200] {
+            let mut t: Type = TypeInner::Nat8.into();
+            for _ in 0..k {
+                t = TypeInner::Opt(t).into();
+            }
+            // value: all the options present down to the number (inner-most first)
+            let mut v = IDLValue::Nat8(7);
+            for _ in 0..k {
+                v = IDLValue::Opt(Box::new(v));
+            }
+            emit_roundtrip(ctx, &none, &[t.clone()], &[v], true);
+            emit_roundtrip(ctx, &none, &[t], &[IDLValue::None], true);
+        }
+        for k in [60usize, 64, 65, 70, 130] {
+            // a record with k fields of pairwise different composite types
+            let mut fs = vec![];
+            let mut vs = vec![];
+            for i in 0..k {
+                let inner: Type = TypeInner::Record(vec![Field { id: Label::Id(i as u32 + 1000).into(), ty: TypeInner::Nat8.into() }]).into();
+                fs.push(Field { id: Label::Id(i as u32).into(), ty: TypeInner::Opt(inner).into() });
+                vs.push(IDLField {
+                    id: Label::Id(i as u32),
+                    val: IDLValue::Opt(Box::new(IDLValue::Record(vec![IDLField { id: Label::Id(i as u32 + 1000), val: IDLValue::Nat8(i as u8) }]))),
+                });
+            }
+            emit_roundtrip(ctx, &none, &[TypeInner::Record(fs).into()], &[IDLValue::Record(vs)], true);
+        }
+    }
     let n = if ctx.thorough { 120_000 } else { 6_000 };
     for i in 0..n {
         let refs = ctx.rng.chance(1, 3);
